@@ -199,6 +199,13 @@ def oracles(ctx, deep):
     from direct.nn.rim.rim import MRILogLikelihood
     from .. import engine_harness as H
 
+    H.setup()
+
+    class _Eng(MRIModelEngine):  # the constructor of the real engine runs; only the abstract loss builder is filled in
+        def build_loss(self):
+            return {}
+
+    engines = {}
     for _ in range(ctx.n(40, 400) * (2 if deep else 1)):
         runs += 1
         centered = rng.random() < 0.7
@@ -214,9 +221,11 @@ def oracles(ctx, deep):
         k2 = torch.where(mask == 0, noise, k)  # differs only where the mask is not set
         cfg = {"shape": [N, C, h, w], "centered": centered, "mask_fraction": float(mask.float().mean())}
         try:
-            eng = MRIModelEngine.__new__(MRIModelEngine)
-            eng.forward_operator, eng.backward_operator = fwd, bwd
-            eng._coil_dim, eng._spatial_dims, eng._complex_dim = 1, (2, 3), -1
+            # one engine per operator pair, used for the whole run: an engine sees many masks in its life
+            if centered not in engines:
+                engines[centered] = _Eng(H.make_cfg(10), torch.nn.Linear(1, 1), device="cpu", forward_operator=fwd, backward_operator=bwd)
+            eng = engines[centered]
+            fwd, bwd = eng.forward_operator, eng.backward_operator
             f = eng._forward_operator(img, S, mask)
             off = (mask == 0).expand_as(f)
             if not bool((f.view(torch.int32)[off] == 0).all()):
@@ -231,6 +240,19 @@ def oracles(ctx, deep):
                 k, k2 = k_before.clone(), k2_before.clone()
             if not torch.equal(b1, b2):
                 add(Violation("noninterference", "MRIModelEngine._backward_operator depends on unsampled k-space (max diff %.3g), %s" % (float((b1 - b2).abs().max()), cfg), {"config": cfg}, {"fn": "_backward_operator"}))
+            # the mask the operators use is the one they are given now: the same tensor object updated in place, and a
+            # transposed view of it (same storage, same shape when square), select what their current contents say
+            mask2 = mask.clone()
+            first = eng._forward_operator(img, S, mask2)
+            mask2.copy_(~mask2 if rng.random() < 0.5 else torch.rand(mask2.shape, generator=g) < 0.5)
+            for nm, mm in (("updated in place", mask2), ("transposed view", mask2.transpose(2, 3) if h == w else None)):
+                if mm is None:
+                    continue
+                got_f, got_b = eng._forward_operator(img, S, mm), eng._backward_operator(k, S, mm)
+                want_f = torch.where(mm == 0, torch.zeros(1), fwd(T.expand_operator(img, S, dim=1), dim=(2, 3)))
+                want_b = T.reduce_operator(bwd(torch.where(mm == 0, torch.zeros(1), k), dim=(2, 3)), S, dim=1)
+                if not torch.equal(got_f, want_f) or not torch.equal(got_b, want_b):
+                    add(Violation("operator-stale-mask", "MRIModelEngine masked operators do not use the current contents of a sampling mask %s after an earlier call, %s" % (nm, cfg), {"config": cfg, "history": nm}, {"fn": "_forward_operator-history"}))
             ll = MRILogLikelihood(fwd, bwd)
             xin = img.permute(0, 3, 1, 2)
             l1, l2 = ll(xin, k, S, mask), ll(xin, k2, S, mask)
